@@ -152,7 +152,7 @@ func (e *env) concCase(work string, idx int, rng *mrand.Rand) {
 		c.names = append(c.names, name)
 		var sets [3]rrset
 		for k := range sets {
-			zero := rng.IntN(7) == 0
+			zero := rng.IntN(4) == 0
 			base := pos[rng.IntN(len(pos))]
 			sets[k] = genSet(rng, k, 1+rng.IntN(3), func() uint32 {
 				switch {
@@ -185,7 +185,7 @@ func (e *env) concCase(work string, idx int, rng *mrand.Rand) {
 	nPhases := 3 + rng.IntN(4)
 	var kinds []string
 	for p := 0; p < nPhases; p++ {
-		kind := []string{pkPlain, pkPlain, pkHeld, pkHeld, pkHeldZone, pkHeldZone, pkHeldBlip, pkHeldBlip, pkFreeZone, pkFailing}[rng.IntN(10)]
+		kind := []string{pkPlain, pkPlain, pkHeld, pkHeld, pkHeldZone, pkHeldZone, pkHeldBlip, pkHeldBlip, pkFreeZone, pkFreeZone, pkFreeZone, pkFailing}[rng.IntN(12)]
 		if p == 0 && kind == pkFailing {
 			kind = pkHeld
 		}
@@ -575,14 +575,20 @@ func (c *concCase) judge() {
 				}
 			}
 			c.counts["conc_partition_reads"] += int64(reads)
-			switch res := porcupine.CheckOperationsTimeout(cacheModel(tau), ops, 60*time.Second); res {
+			// A read that no order can explain (see impossibleRead) settles the partition without a search.
+			class := c.impossibleRead(name, k, tau)
+			res := porcupine.Illegal
+			if class == "" {
+				class = "order"
+				res = porcupine.CheckOperationsTimeout(cacheModel(tau), ops, 60*time.Second)
+			}
+			switch res {
 			case porcupine.Ok:
 				c.counts["conc_partitions_linearizable"]++
 			case porcupine.Unknown:
 				r.Inconclusive("porcupine gave up after 60 s on partition %s/%s of %s case %d (%d operations)", name, qnames[k], c.work, c.idx, len(ops))
 			default:
 				sort.Slice(dump, func(i, j int) bool { return dump[i].Call < dump[j].Call })
-				class := c.classifyIllegal(name, k, tau)
 				c.viol("linearizability:"+qnames[k]+":"+class, map[string]any{"partition": name + "/" + qnames[k], "smallest_ttl": tau, "partition_history": dump},
 					"the calls on %s/%s (smallest TTL %d s) cannot be ordered so that every answer is either a cached answer within its TTL or the data current at that moment (%s)", name, qnames[k], tau, class)
 			}
@@ -590,13 +596,18 @@ func (c *concCase) judge() {
 	}
 }
 
-// classifyIllegal names the mechanism of a rejected partition: a read that no order can explain because the version
-// it shows was superseded at least ttl seconds (virtual) before the read ("stale-beyond-ttl"), a read showing a version
-// newer than any installed ("future-version"), otherwise "order".
-func (c *concCase) classifyIllegal(name string, k int, tau int64) string {
-	// virtual second at which each version stopped being current, and phase clocks
+// impossibleRead finds a read that is illegal under EVERY order of the partition, and names the mechanism:
+//
+//	stale-beyond-ttl    the version it shows was replaced at virtual second s (so it was fetched at s at the latest and
+//	                    is valid before s+ttl only) and the call was made at virtual second >= s+ttl, ttl > 0
+//	ttl0-answer-reused  every record has TTL 0 (never cacheable) and the zone change that replaced the version shown had
+//	                    returned before the call was invoked (so this call cannot have fetched it)
+//	future-version      a version that was never installed
+//
+// "" = no such read; the partition then goes to porcupine (class "order" when it is rejected there).
+func (c *concCase) impossibleRead(name string, k int, tau int64) string {
 	supersededAt := map[int]int64{}
-	clockAt := func(stamp int64) int64 { // virtual time at a stamp (clock changes only through advance ops)
+	clockAt := func(stamp int64) int64 { // virtual time at a stamp (the clock changes only through advance ops)
 		var t int64
 		for _, op := range c.ctls {
 			if op.Kind == "advance" && op.Ret <= stamp {
@@ -612,7 +623,6 @@ func (c *concCase) classifyIllegal(name string, k int, tau int64) string {
 			v++
 		}
 	}
-	class := "order"
 	for _, call := range c.calls {
 		if call.Name != name || call.Err != "" {
 			continue
@@ -628,7 +638,7 @@ func (c *concCase) classifyIllegal(name string, k int, tau int64) string {
 			return "ttl0-answer-reused"
 		}
 	}
-	return class
+	return ""
 }
 
 // supersededBefore: the zone change that replaced version x had returned before stamp.
@@ -655,10 +665,11 @@ func (c *concCase) phaseCheck(byPhaseName map[string][]*concCall) {
 	type det struct {
 		until   int64
 		certain bool
+		cands   []int64 // while uncertain: the valid-until values the entry may have (it may also be absent)
 	}
 	state := map[string]*[3]det{}
 	for _, n := range c.names {
-		state[n] = &[3]det{{-1, true}, {-1, true}, {-1, true}}
+		state[n] = &[3]det{{until: -1, certain: true}, {until: -1, certain: true}, {until: -1, certain: true}}
 	}
 	for p, ph := range c.phases {
 		for _, name := range c.names {
@@ -724,13 +735,35 @@ func (c *concCase) phaseCheck(byPhaseName map[string][]*concCall) {
 				case d.certain && ph.Kind == pkFailing:
 					// nothing can be fetched; the entry stays invalid
 				case d.certain:
-					d.certain, d.until = false, ph.Clock+tau // failure blip: fetched or not, kept or detached
+					// failure blip: the key may have been fetched (valid until now+ttl) or not, or fetched into a detached entry
+					d.certain, d.cands = false, []int64{ph.Clock + tau}
 					c.counts["conc_keys_uncertain_after_blip"]++
-				case clean && ok > 0:
-					if q[k] > 0 || !valid {
-						d.until = ph.Clock + tau
+				case !clean && ph.Kind != pkFailing: // another blip while uncertain
+					live := []int64{ph.Clock + tau}
+					for _, u := range d.cands {
+						if u > ph.Clock {
+							live = append(live, u)
+						}
 					}
-					d.certain = true
+					d.cands = live
+				case clean && ok > 0 && q[k] > 0: // it was missing or expired, and is cached now
+					d.certain, d.until, d.cands = true, ph.Clock+tau, nil
+				case clean && ok > 0: // no query: one of the possible entries was there and valid
+					var live []int64
+					for _, u := range d.cands {
+						if u > ph.Clock && (len(live) == 0 || live[len(live)-1] != u) {
+							live = append(live, u)
+						}
+					}
+					switch len(live) {
+					case 0:
+						c.viol("conc:no-upstream-query-after-expiry", ex, "phase %d at second %d: %d Resolve(%s) calls succeeded without any upstream %s query although no answer fetched earlier can still be within its TTL (candidates valid until %v)", p, ph.Clock, ok, name, qnames[k], d.cands)
+						d.certain, d.until, d.cands = true, ph.Clock+tau, nil
+					case 1:
+						d.certain, d.until, d.cands = true, live[0], nil
+					default:
+						d.cands = live
+					}
 				}
 			}
 		}
